@@ -276,6 +276,52 @@ func relocateCheck(u []byte, t, span int, rr *core.Rand) string {
 			return ""
 		}
 	}
+	// a region that is too short is refused wherever it starts (also where the URI already is)
+	if len(u) > 0 {
+		for _, t0 := range []int{0, t} {
+			short := len(u) - 1 - rr.Intn(minInt(len(u), 6))
+			if short < 0 || t0+short > 65535 {
+				continue
+			}
+			q0 := p
+			var ok0 bool
+			if pan, pmsg, _ := core.Guard(func() { ok0 = q0.AdjustOffs(sipsp.PField{Offs: sipsp.OffsT(t0), Len: sipsp.OffsT(short)}) }); pan {
+				return "AdjustOffs panicked: " + pmsg
+			}
+			if ok0 || q0 != p {
+				return fmt.Sprintf("AdjustOffs({%d,%d}) on a URI of %d bytes: returned %v, structure changed: %v", t0, short, len(u), ok0, q0 != p)
+			}
+		}
+	}
+	// truncated URI: its length is the short form; a region of exactly that length must do
+	if p.Params.Len > 0 || p.Headers.Len > 0 {
+		tr := p
+		tr.Truncate()
+		// extent of what remains: scheme .. end of the last PRESENT component before the
+		// parameters (a present-but-empty port still occupies its ':'), from the original parse
+		ext := 0
+		for _, f := range []sipsp.PField{p.Scheme, p.User, p.Pass, p.Host, p.Port} {
+			if (f.Offs != 0 || f.Len != 0) && int(f.Offs)+int(f.Len) > ext {
+				ext = int(f.Offs) + int(f.Len)
+			}
+		}
+		l := sipsp.PField{Offs: 0, Len: sipsp.OffsT(ext)}
+		if int(l.Len) > 0 && t+int(l.Len) <= 65535 {
+			var okT bool
+			before := tr
+			if pan, pmsg, _ := core.Guard(func() { okT = tr.AdjustOffs(sipsp.PField{Offs: sipsp.OffsT(t), Len: l.Len}) }); pan {
+				return "AdjustOffs after Truncate panicked: " + pmsg
+			}
+			if !okT {
+				return fmt.Sprintf("URI truncated to %d bytes cannot be relocated into a region of %d bytes at %d", l.Len, l.Len, t)
+			}
+			for i, pr := range [][2]sipsp.PField{{before.Scheme, tr.Scheme}, {before.User, tr.User}, {before.Pass, tr.Pass}, {before.Host, tr.Host}, {before.Port, tr.Port}} {
+				if (pr[0].Offs != 0 || pr[0].Len != 0) && (int(pr[1].Offs) != int(pr[0].Offs)+t || pr[1].Len != pr[0].Len) {
+					return fmt.Sprintf("truncated URI relocated to %d: component %d is %v, expected offset %d", t, i, pr[1], int(pr[0].Offs)+t)
+				}
+			}
+		}
+	}
 	q := p
 	var ok bool
 	pan, pmsg, _ := core.Guard(func() { ok = q.AdjustOffs(sipsp.PField{Offs: sipsp.OffsT(t), Len: sipsp.OffsT(span)}) })
